@@ -14,7 +14,10 @@ SIZE_CLASSES = [
 ]
 
 FOREIGN_NAMES = ["notes.txt", "cachefile_keepme", "keepme_cachefile", "sub/cachefile_abc_cachefile", "sub/data.bin",
-                 "cachefile", "_cachefile", "xcachefile_abc_cachefile", "cachefile_abc_cachefile.bak"]
+                 "cachefile", "_cachefile", "xcachefile_abc_cachefile", "cachefile_abc_cachefile.bak",
+                 # user files named after a real cache file of this run ('@k<i>' = cache file name of key i)
+                 "@k0.bak", "@k1.bak", "@k2~", "old-@k0", "@k1.orig", "sub/@k0", "backup_@k2.tar",
+                 "cachefile_0123456789abcdef0123456789abcdef_cachefile.bak"]
 
 
 def wchoice(rng, pairs):
@@ -91,6 +94,7 @@ def gen_knobs(rng, prop, profile):
         "bufsize": wchoice(rng, [(70, 8192), (15, 4096), (15, 65536)]),
         "evict_on_startup": rng.random() < 0.15,
         "big_requests": big,
+        "fine_grained": bool(profile.get("fine_grained", False)) or (big and rng.random() < 0.04),
     }
 
 
